@@ -37,6 +37,7 @@ PROJECTS = {
     "chain": ("f_chain", {}),
     "glob_cfg": ("f_glob", {"mode": "tree", "cfg": 1}),
     "glob_missing": ("f_glob", {"nest": 1}),
+    "glob_deep": ("f_glob", {"deep": 1}),
 }
 # sequences over several watch phases: ("REBUILD",) asks for a rebuild in between, in both variants
 MULTI_PHASE = {
@@ -52,6 +53,7 @@ MULTI_PHASE = {
 TARGETS = {
     "glob_missing": {"files": ["data/raw/a.txt", "data/raw/b.txt", "data/x.txt"], "dirs": ["data", "data/raw"]},
     "glob_cfg": {"files": ["cfg.txt", "data/a.txt", "data/c.txt"], "dirs": ["data"]},
+    "glob_deep": {"files": ["src/pkg/mod/a.txt", "src/pkg/mod/c.txt"], "dirs": ["src/pkg", "src/pkg/mod"]},
     "glob_tree": {"files": ["data/a.txt", "data/c.txt", "out/a.out"], "dirs": ["data", "out"]},
     "glob_pattern": {"files": ["data/a.txt", "data/c.txt", "out/b.out"], "dirs": ["data"]},
     "subplan_tree": {"files": ["sub/data/in.txt", "sub/out/s.txt"], "dirs": ["sub/data", "sub/out"]},
